@@ -385,6 +385,11 @@ def container_equal(task, a, b, route, what, fseed):
     elif ma != mb:
         raise V(PROP, "structure", "%s: geometry / type differ: %s vs %s" % (what, ma, mb))
     pa, pb = parts(a), parts(b)
+    if route == "legacy" and isinstance(a, fpeps.EnvBP):
+        # the deprecated dictionary of EnvBP stores the messages t/l/b/r only; their square-root factors tR/lR/bR/rR are re-derived on loading
+        # (eigh + qr, a gauge choice): they are compared through the follow-up measurement below, not tensor by tensor
+        pa = {k: t for k, t in pa.items() if not k.endswith("R")}
+        pb = {k: t for k, t in pb.items() if not k.endswith("R")}
     if not (materialising and isinstance(a, mps.MpsMpoOBC) and a.pC is not None):
         if set(pa) != set(pb):
             raise V(PROP, "structure", "%s: the restored object holds tensors %s, the source %s" % (what, sorted(pb)[:8], sorted(pa)[:8]))
